@@ -12,10 +12,34 @@ var Sched func(id, kind int, addr unsafe.Pointer)
 // PVarNames maps variable ids to names (filled by the generated totals file).
 var PVarNames = map[string][]string{}
 
+// Snapshot, when true, makes P remember the value every package-level variable had the first
+// time it was about to be used (P runs before the access), so that RestoreAll can put the
+// package back into its initial state before each explored execution: lazily initialised tables
+// are then uninitialised again and their unsynchronised first-use writes are seen on every run.
+var Snapshot bool
+
+var restores = map[int]func(){}
+
 // P is wrapped round every use of a package-level variable: (*P(id, kind, &v)).
 func P[T any](id, kind int, p *T) *T {
+	if Snapshot {
+		if _, ok := restores[id]; !ok {
+			v := *p
+			restores[id] = func() { *p = v }
+		}
+	}
 	if Sched != nil {
 		Sched(id, kind, unsafe.Pointer(p))
 	}
 	return p
 }
+
+// RestoreAll resets every package-level variable seen so far to its first-seen value.
+func RestoreAll() {
+	for _, f := range restores {
+		f()
+	}
+}
+
+// Snapshots is the number of variables under snapshot.
+func Snapshots() int { return len(restores) }
